@@ -437,6 +437,32 @@ def search_C14(pid, budget):
         B = 10
         data = synth(pat, B)
         kw = dict(min_dur=0.02, max_dur=0.05, max_silence=0.01)
+        import threading
+        # a stop while an observer slower than the tokenizer still has detections queued (real threads, real queues):
+        # every detection the tokenizer made is processed by the observer before it ends -- none is lost behind the marker
+        n += 1
+        long_data = synth("aAAa" * 60, 10)
+        slow_got = []
+
+        class SlowObs(Worker):
+            def __init__(self):
+                super().__init__(timeout=0.05)
+
+            def _process_message(self, m):
+                time.sleep(0.01)
+                slow_got.append(m[0])
+        so = SlowObs()
+        tw5 = TokenizerWorker(AudioReader(long_data, block_dur=0.01, sr=1000, sw=2, ch=1), [so], **kw)
+        tw5.start_all()
+        time.sleep(0.15)
+        tw5.stop_all()
+        tw5.join(5)
+        so.join(5)
+        made = [d.id for d in tw5.detections]
+        if slow_got != made or so.is_alive() or tw5.is_alive():
+            fail(pid, "stop_all", "stop with a backlog: the tokenizer made detections %d..%d (%d), the slow observer processed %d of them "
+                 "(last id %r); threads alive: %r" % (made[0] if made else 0, made[-1] if made else 0, len(made), len(slow_got),
+                                                      slow_got[-1] if slow_got else None, [so.is_alive(), tw5.is_alive()]))
         for k in range(0, len(pat) + 3):       # the stop marker is seen by the poll that precedes read number k+1
             for with_saver in (False, True):
                 n += 1
